@@ -16,6 +16,7 @@ META = {
     'not_decided': ["equality of whole program variants' results (a metamorphic relation over runs)"],
 }
 META['explanation'] += ' R10.10 the jump placeholder is only written, never compared: moving code by a few bytes cannot turn a legal jump target into a refused one.'
+META['explanation'] += " R10.1 also: the value the generic arm and its fused twin push is the same expression over their two operands (the method's answer, nothing computed from it in one arm only). R10.4 also: a value read from the pool leaves it only through OpCode::Const."
 
 
 def run(ctx, rep):
